@@ -164,6 +164,7 @@ fn div_lemma(dbits: u32) {
     if a == i64::MIN && d == -1 {
         assert!(r == I64::PlusInf, "C10: I64 div: i64::MIN / -1 is +inf (exact result not representable)");
     } else {
+        assert!(matches!(r, I64::Num(_)), "C10: I64 div of finite by non-zero finite is finite unless MIN / -1");
         match r {
             I64::Num(q) => {
                 let rem = a as i128 - (q as i128) * (d as i128);
@@ -171,7 +172,7 @@ fn div_lemma(dbits: u32) {
                 let arem = if rem < 0 { -rem } else { rem };
                 assert!(arem < ad && (rem == 0 || (rem < 0) == (a < 0)), "C10: I64 div truncates toward zero (division lemma)");
             }
-            _ => assert!(false, "C10: I64 div of finite by non-zero finite is finite unless MIN / -1"),
+            _ => {}
         }
     }
     kani::cover!(a == i64::MIN && d == -1, "MIN / -1 reachable");
@@ -180,6 +181,31 @@ fn div_lemma(dbits: u32) {
 #[kani::proof]
 fn c10_i64_div_d8() {
     div_lemma(8)
+}
+/// quick variant: dividend restricted to 32 significant bits (sign-extended) or i64::MIN/MAX
+#[kani::proof]
+fn c10_i64_div_a32_d8() {
+    let a: i64 = kani::any();
+    let d: i64 = kani::any();
+    kani::assume(d != 0 && d >= -128 && d < 128);
+    kani::assume((a >= i32::MIN as i64 && a <= i32::MAX as i64) || a == i64::MIN || a == i64::MAX);
+    let r = I64::Num(a) / I64::Num(d);
+    if a == i64::MIN && d == -1 {
+        assert!(r == I64::PlusInf, "C10: I64 div: i64::MIN / -1 is +inf (exact result not representable)");
+    } else {
+        assert!(matches!(r, I64::Num(_)), "C10: I64 div of finite by non-zero finite is finite unless MIN / -1");
+        match r {
+            I64::Num(q) => {
+                let rem = a as i128 - (q as i128) * (d as i128);
+                let ad = if d < 0 { -(d as i128) } else { d as i128 };
+                let arem = if rem < 0 { -rem } else { rem };
+                assert!(arem < ad && (rem == 0 || (rem < 0) == (a < 0)), "C10: I64 div truncates toward zero (division lemma)");
+            }
+            _ => {}
+        }
+    }
+    kani::cover!(a == i64::MIN && d == -1, "MIN / -1 reachable");
+    kani::cover!(a < 0 && d > 1 && a % d != 0, "negative inexact quotient reachable");
 }
 #[kani::proof]
 fn c10_i64_div_d16() {
